@@ -6,6 +6,9 @@ line formats (shared with lean/Driver.lean)
                       output: one token per K, the drained packets and `.` per D, then rx=<frames_rx> stable=<bool>
   nmea|<op>;<op>;…    P<hex> process  R restart          output: rx=<frames_rx>
 """
+import copy
+import zlib
+
 from lib import frame, fletcher, nmea as nmea_sentence
 import realenv
 from realenv import exc_name
@@ -32,8 +35,30 @@ def show_packet(cid, data):
     return f'{cid.cls}/{cid.id}:{bytes(data).hex()}'
 
 
+class NamedCID(UbxCID):
+    """what an application may well do: class/ids that know what they are called"""
+
+    def __init__(self, cls, id, name):
+        super().__init__(cls, id)
+        self.name = name
+
+
 def parse_cids(s):
-    return [UbxCID(*map(int, x.split(':'))) for x in s.split(',')] if s else []
+    """class/ids as the caller may hold them: plain, of a subclass that carries a name, or tagged after construction - which one
+    depends on the text (and repeats on a replay); to a filter they are the same class/ids"""
+    out = []
+    for n, x in enumerate(s.split(',') if s else []):
+        c, i = map(int, x.split(':'))
+        k = (zlib.crc32(s.encode()) + n) % 6
+        if k == 0:
+            cid = NamedCID(c, i, f'MSG-{c:02X}-{i:02X}')
+        elif k == 1:
+            cid = UbxCID(c, i)
+            cid.label = 'mine'
+        else:
+            cid = UbxCID(c, i)
+        out.append(cid)
+    return out
 
 
 FEED = 'PALMIG'       # process() given bytes / bytearray / list / memoryview / iterator / generator: any iterable of byte values
@@ -61,6 +86,9 @@ class UbxRun:
         self.out, self.handed, self.exc = [], [], None      # handed: (payload object, copy at hand-out time)
 
     def step(self, op):
+        realenv.in_thread(self._step, op)
+
+    def _step(self, op):
         if self.exc:
             return
         p, out, handed = self.p, self.out, self.handed
@@ -109,6 +137,9 @@ class NmeaRun:
         self.exc = None
 
     def step(self, op):
+        realenv.in_thread(self._step, op)
+
+    def _step(self, op):
         if self.exc:
             return
         try:
@@ -146,7 +177,52 @@ def run_interleaved(cls, line):
     return ' ## '.join(r.result() for r in runs)
 
 
+def bulk_stream(n, mode):
+    out = bytearray()
+    for k in range(n):
+        f = bytearray(frame(1, 7, [k % 256, k // 256 % 256]))
+        if mode == 1 or (mode == 2 and k % 3 == 0):
+            f[-1] = (f[-1] + 1) % 256
+        out += f
+    return bytes(out)
+
+
+def digest(bs):
+    h = 0
+    for b in bs:
+        h = (h * 31 + b) % 4294967296
+    return h
+
+
+def summarise(tokens):
+    return f'count={len(tokens)} h={digest(" ".join(tokens).encode())} tail={" ".join(tokens[-4:])}'
+
+
+def bulk_as_ops(line):
+    """the explicit `ubx|` line a bulk line stands for (for the reference scanner)"""
+    _, n, mode, ops = line.split('|')
+    return 'ubx|F1:7;P' + bulk_stream(int(n), int(mode)).hex() + ';' + ops
+
+
+def real_ubxbulk(line):
+    """a long history on ONE parser: thousands of frames fed in blocks and left in the queue, then the operations"""
+    _, n, mode, ops = line.split('|')
+    r = UbxRun()
+    r.step('F1:7')
+    data = bulk_stream(int(n), int(mode))
+    for k in range(0, len(data), 4096):
+        realenv.in_thread(r.p.process, data[k:k + 4096])
+    for op in ops.split(';'):
+        r.step(op)
+    toks = r.result().split(' ')
+    if toks[-1] == 'stable=false':
+        return 'PAYLOADS-CHANGED ' + summarise(toks[:-1])
+    return summarise(toks[:-1] if toks[-1].startswith('stable=') else toks)
+
+
 def real_ubx(line):
+    if line.startswith('ubxbulk|'):
+        return real_ubxbulk(line)
     if line.startswith('ubxil|'):
         return run_interleaved(UbxRun, line)
     r = UbxRun()
@@ -314,6 +390,11 @@ def oracles_interleaved(kind, one, line, real_out):
 
 
 def oracles_ubx(line, real_out):
+    if line.startswith('ubxbulk|'):
+        exp, pieces = spec_ubx(bulk_as_ops(line))
+        exp = summarise(exp.split(' ')[:-1])
+        what = 'a long history on one parser: every frame delivered exactly once and in order, one marker per bad frame, however many are waiting'
+        return [{'prop': q, 'ok': real_out == exp, 'expected': exp, 'observed': real_out[:300], 'what': what} for q in ('C02', 'C03', 'C09', 'C11')], []
     if line.startswith('ubxil|'):
         return oracles_interleaved('ubx', oracles_ubx, line, real_out)
     exp, pieces = spec_ubx(line)
@@ -543,9 +624,23 @@ def with_time(rng, ln):
     return kind + '|' + ';'.join(ops)
 
 
+BULK_TAILS = ['D', 'K;D', 'R;D', 'R;Pb56201070200aabb6f41b562010702000c0d2356b56201070200aabb6f41;D', 'E;Pb562010702000c0d2356;K;K']
+
+
 def gen_ubx(rng, n, profile):
     """profile: 'grammar' (C02), 'wild' (C03), 'chunks' (C09), 'ops' (C11), 'mixed'; about one line in twelve runs two or
-    three parser objects side by side; one in eight has time passing between the calls"""
+    three parser objects side by side; one in eight has time passing between the calls; a few are long histories"""
+    if profile == 'bulk':
+        # thorough tier: histories long enough for any 16-bit counter or table to wrap
+        for size, mode, tail in [(40000, 0, 'D'), (70000, 0, 'K;D'), (70000, 2, BULK_TAILS[3]), (33000, 1, 'R;D')][:max(1, n)]:
+            yield f'ubxbulk|{size}|{mode}|{tail}'
+        return
+    if n >= 100:
+        # (a job is cut into shards of a few hundred lines: the big ones come with a probability, so that a run has one or two)
+        sizes = [150, 300, 1100] + ([5000] if rng.random() < .25 else []) + ([20000] if rng.random() < .06 else [])
+        for k, size in enumerate(sizes):
+            yield f'ubxbulk|{size}|{(k + rng.randrange(3)) % 3}|{rng.choice(BULK_TAILS)}'
+        yield f'ubxbulk|{rng.choice([120, 260, 1030])}|1|{BULK_TAILS[3]}'
     hold = []
     for ln in gen_ubx1(rng, n, profile):
         if rng.random() < 0.12:
@@ -707,8 +802,11 @@ def real_cid(line):
     a = UbxCID(c, i)
     eq, neq, hsh, inl, dct = [], [], [], [], []
     table = {UbxCID(x, y): (x, y) for x, y in CID_GRID}
-    for x, y in CID_GRID:
-        b = UbxCID(x, y)
+    for n, (x, y) in enumerate(CID_GRID):
+        # the other side of the comparison: plain, of a subclass that carries a name, tagged after construction, a copy
+        b = [UbxCID(x, y), NamedCID(x, y, 'named'), UbxCID(x, y), copy.deepcopy(UbxCID(x, y))][(n + c + i) % 4]
+        if (n + c + i) % 4 == 2:
+            b.label = 'tagged'
         if a == b:
             eq.append(f'{x}:{y}')
         if not (a != b):
